@@ -9,8 +9,14 @@
    equality.
    [Tabled ops outs runs]: a sequential history over several names (every job far in the future,
    the system at rest between operations); equality with Model/C02_TableOps.v.
+   [Skeleton fn toks]: the statements of one of the three short lock-protected sections (runJob,
+   CancelJob, finaliseJob) as read from the source, logging and metrics dropped; equality with the
+   order the model was written from.  A reordering of two adjacent statements there changes the
+   interleavings (RStep / CStep / finalise of Model/C02_Scheduler.v) but shows in a run only if
+   another goroutine is scheduled between those two statements, which the bubble never forces.
 
    [P_b] is the property itself, evaluated on the script and the OBSERVED outcome only. *)
+From Coq Require Import String.
 From Verif Require Export Lib.Base Lib.Reach Model.C02_Scheduler Model.C02_Script Model.C02_TableOps.
 
 Record obs := {
@@ -24,7 +30,8 @@ Record obs := {
 
 Inductive body :=
 | Timed (sc : script) (os : list obs)
-| Tabled (ops : list top) (outs : list tout) (runs : list (N * N)).
+| Tabled (ops : list top) (outs : list tout) (runs : list (N * N))
+| Skeleton (fn : string) (toks : list string).
 
 Record case := { c_id : N; c_body : body }.
 
@@ -55,6 +62,22 @@ Definition tout_eqb (a b : tout) : bool :=
   | _, _ => false
   end.
 
+(* runJob = r_step (RLocked: load active, load finalised; RSet; RSend; RUnl); CancelJob =
+   cancel_lookup + c_step (CLocked: load/store finalised; CSend; CUnl); finaliseJob = finalise *)
+Definition expected_skeleton (fn : string) : list string :=
+  if String.eqb fn "runJob" then
+    ["job.stateLock.Lock()"; "if job.active.Load() {"; "job.stateLock.Unlock()"; "return scheduler.ErrJobRunning"; "}";
+     "if job.finalised.Load() {"; "job.stateLock.Unlock()"; "return scheduler.ErrJobFinalised"; "}";
+     "job.active.Store(true)"; "job.runCh <- struct{}{}"; "job.stateLock.Unlock()"; "return nil"]%string
+  else if String.eqb fn "CancelJob" then
+    ["s.jobsMutex.Lock()"; "job, exists := s.jobs[name]"; "if !exists {"; "s.jobsMutex.Unlock()"; "return scheduler.ErrNoSuchJob"; "}";
+     "delete(s.jobs, name)"; "s.jobsMutex.Unlock()"; "job.stateLock.Lock()";
+     "if job.finalised.Load() {"; "job.stateLock.Unlock()"; "return nil"; "}";
+     "job.finalised.Store(true)"; "job.cancelCh <- struct{}{}"; "job.stateLock.Unlock()"; "return nil"]%string
+  else if String.eqb fn "finaliseJob" then
+    ["job.stateLock.Lock()"; "job.finalised.Store(true)"; "close(job.cancelCh)"; "close(job.runCh)"; "job.stateLock.Unlock()"]%string
+  else [].
+
 Definition agree (c : case) : bool :=
   match c_body c with
   | Timed sc os =>
@@ -63,6 +86,8 @@ Definition agree (c : case) : bool :=
   | Tabled ops outs runs =>
       let '(s, outs') := tb_run tb_init ops in
       list_eqb tout_eqb outs outs' && list_eqb (prod_eqb N.eqb N.eqb) runs (tb_final_runs s)
+  | Skeleton fn toks =>
+      match expected_skeleton fn with [] => false | e => list_eqb String.eqb toks e end
   end.
 
 (* --- the property on the observed outcome ------------------------------------------------------- *)
@@ -247,6 +272,7 @@ Definition P_b (c : case) : bool :=
   match c_body c with
   | Timed sc os => forallb (P_timed sc) os
   | Tabled ops outs runs => tspec [] 0 [] ops outs runs
+  | Skeleton _ _ => true      (* no clause of the property speaks of the source text *)
   end.
 
 Definition mismatches (cs : list case) : list N := failing_ids c_id agree cs.
